@@ -71,13 +71,15 @@ def gen_fork_copy(obj):
     return fn, names
 
 
-def scenario_fork_reads(f, r1, r2, r3, pre, nreads, nlines, mm):
+def scenario_fork_reads(f, r1, r2, r3, pre, nreads, nlines, mm, mid=0):
     f.open()
     if pre >= 1:
         one_read(f, "p0_pre0", nlines)  # the parent's position at fork time is whatever its last read left
     if r1 is not None:
         fork_copy(r1.f, f)
         r1.start()
+    if mid >= 1:
+        one_read(f, "p0_mid0", nlines)  # the second child is forked later: while the first one runs and after another parent read
     if r2 is not None:
         fork_copy(r2.f, f)
         r2.start()
@@ -136,7 +138,7 @@ def make(cfg, ctx, mode, ctrl=None, restore=None):
     info = {"list_caps": {}, "default_cap": max(nlines, 1), "dict_keys": nlines + 1, "files": {PATH: F},
             "fork_functions": ["fork_copy"], "fork_copied_attributes": copied}
     return {"scenario": scenario_fork_reads,
-            "args": (f, rs[0], rs[1], rs[2], CInt(cfg.get("pre", 0)), CInt(cfg.get("reads", 1)), CInt(nlines), kind == "mmap"),
+            "args": (f, rs[0], rs[1], rs[2], CInt(cfg.get("pre", 0)), CInt(cfg.get("reads", 1)), CInt(nlines), kind == "mmap", CInt(cfg.get("mid", 0))),
             "info": info}
 
 
@@ -292,6 +294,8 @@ def custom_replay(spec):
                 do_reads(f, ("p0_pre0",), 1)
             pids = []
             for k in range(1, children + 1):
+                if k == 2 and cfg.get("mid", 0) >= 1:
+                    do_reads(f, ("p0_mid0",), 1)
                 pid = os.fork()  # the child owns a copy of f whose handle shares the parent's open file description
                 if pid == 0:
                     me[0] = "child%d" % k
